@@ -69,7 +69,7 @@ def spec_tables(graph, sw=frozenset()):
          exports(M,k,l,e) <- M imports (l,e), l not declared private in M,
                              (default accessibility of M is public or l declared public)
     returns {scope: {k: {"all": {name: set(ent)}, "pub": {...}}}}"""
-    scopes = {s["name"]: s for s in graph["scopes"]}
+    scopes = {s["name"]: s for s in graph["scopes"] + graph.get("nested", [])}
     mods = {n for n, s in scopes.items() if s["is_mod"]}
     sees = {n: [dict() for _ in range(4)] for n in scopes}
     imps = {n: [dict() for _ in range(4)] for n in scopes}
@@ -93,6 +93,12 @@ def spec_tables(graph, sw=frozenset()):
     while changed:
         changed = False
         for n, s in scopes.items():
+            if s.get("host"):  # host association: a contained procedure sees what its host sees
+                for k in range(4):
+                    for nm, ents in list(sees[s["host"]][k].items()):
+                        for e in list(ents):
+                            if add(sees[n][k], nm, e):
+                                changed = True
             for u in s["uses"]:
                 if u["mod"] not in mods:
                     continue
@@ -134,7 +140,7 @@ def has_clash(spec, graph):
 def features(graph):
     mods = {s["name"] for s in graph["scopes"] if s["is_mod"]}
     f = set()
-    for s in graph["scopes"]:
+    for s in graph["scopes"] + graph.get("nested", []):
         for u in s["uses"]:
             if u["mod"] not in mods:
                 continue
@@ -215,6 +221,7 @@ def gen_graph(rng, idx, hist):
     with_prog = rng.random() < 0.6
     shape = rng.choice(["chain", "diamond", "random", "random"])
     scopes = []
+    nested = []
     exported = {}  # module -> {k: set(names)} per the standard (kept incrementally for name choice)
     clashy = rng.random() < 0.06
     defects = rng.random() < 0.30  # allow known-defect forms in this project
@@ -300,9 +307,45 @@ def gen_graph(rng, idx, hist):
         if is_mod:
             spec = spec_tables({"scopes": scopes})
             exported[name] = {k: sorted(spec[name][k]["pub"]) for k in range(4)}
+        if is_mod and i >= 1 and not clashy and rng.random() < 0.4:
+            gen_nested(rng, i, s, scopes, nested, exported, defects, hist)
     hist["shape:" + shape] = hist.get("shape:" + shape, 0) + 1
     hist[f"modules:{nmod}"] = hist.get(f"modules:{nmod}", 0) + 1
-    return {"id": idx, "scopes": scopes}
+    return {"id": idx, "scopes": scopes, "nested": nested}
+
+
+def gen_nested(rng, i, s, scopes, nested, exported, defects, hist):
+    """module procedure n<i>a (and, mostly, its internal procedure n<i>b) with USE statements of
+    their own: the module then depends on those modules only through get_deps' recursion."""
+    levels = 2 if rng.random() < 0.7 else 1
+    host = s["name"]
+    used_at_module_level = {u["mod"] for u in s["uses"]}
+    for lv in range(levels):
+        nm = f"n{i}{'ab'[lv]}"
+        ns = {"name": nm, "is_mod": False, "def_pub": True, "host": host, "decls": [], "uses": [],
+              "pub_names": [], "priv_names": [], "calls": [], "level": lv + 1}
+        cands = [j for j in range(i)]
+        fresh = [j for j in cands if f"m{j}" not in used_at_module_level]
+        deepest = lv == levels - 1
+        if deepest or rng.random() < 0.5:
+            j = rng.choice(fresh) if fresh and rng.random() < 0.7 else rng.choice(cands)
+            ns["uses"].append(gen_use(rng, f"m{j}", exported[f"m{j}"], i, 7 + lv, defects, False, scopes[j]))
+            hist["nested-use-level:%d" % (lv + 1)] = hist.get("nested-use-level:%d" % (lv + 1), 0) + 1
+        nested.append(ns)
+        (s if lv == 0 else nested[-2])["decls"].append(
+            {"name": nm, "kind": K_PROC, "acc": None, "form": "sub", "acc_inline": False, "ref": None, "inner": nm})
+        host = nm
+    deep = nested[-1]
+    spec = spec_tables({"scopes": scopes, "nested": nested})
+    tn = sorted(spec[deep["name"]][K_TYPE]["all"])
+    pn = sorted(n for n in spec[deep["name"]][K_PROC]["all"] if not n.startswith("n"))
+    for q in range(rng.randint(0, 2)):
+        if tn:
+            deep["decls"].append({"name": f"z{i}{q}", "kind": K_VAR, "acc": None, "form": "", "acc_inline": False,
+                                  "ref": rng.choice(tn)})
+    for _ in range(rng.randint(0, 2)):
+        if pn:
+            deep["calls"].append(rng.choice(pn))
 
 
 def gen_use(rng, m, exp, i, q, defects, clashy, mscope):
@@ -360,7 +403,28 @@ def gen_use(rng, m, exp, i, q, defects, clashy, mscope):
 ACC_WORD = {"u": "public", "r": "private", "t": "protected"}
 
 
-def render_scope(rng, s):
+def render_proc(rng, ns, nested, ind):
+    """contained subroutine `ns` with its USE statements, local variables, calls and internal procedure"""
+    L = [f"{ind}subroutine {ns['name']}()"]
+    for u in ns["uses"]:
+        L.append(f"{ind}  " + (u.get("stmt") or render_use(rng, u)))
+    child = None
+    for d in ns["decls"]:
+        if d["kind"] == K_VAR:
+            ty = f"type({rnd_case(rng, d['ref'])})" if d["ref"] else "integer"
+            L.append(f"{ind}  {ty} :: {d['name']}")
+        elif d.get("inner"):
+            child = next(x for x in nested if x["name"] == d["inner"])
+    for c in ns["calls"]:
+        L.append(f"{ind}  call {rnd_case(rng, c)}()")
+    if child is not None:
+        L.append(f"{ind}contains")
+        L += render_proc(rng, child, nested, ind + "  ")
+    L.append(f"{ind}end subroutine {ns['name']}")
+    return L
+
+
+def render_scope(rng, s, nested=()):
     L = []
     L.append(f"module {s['name']}" if s["is_mod"] else f"program {s['name']}")
     for u in s["uses"]:
@@ -393,6 +457,8 @@ def render_scope(rng, s):
             body += [f"  type{inline}{ext} :: {n}", "    integer :: c_" + n, f"  end type {n}"]
         elif d["kind"] == K_ABS:
             body += ["  abstract interface", f"    subroutine {n}()", f"    end subroutine {n}", "  end interface"]
+        elif d.get("inner"):
+            contains += render_proc(rng, next(x for x in nested if x["name"] == d["inner"]), nested, "  ")
         elif d["form"] == "sub":
             contains += [f"  subroutine {n}()", f"  end subroutine {n}"]
         elif d["form"] == "fun":
@@ -434,8 +500,12 @@ class Impl:
         self.fp, self.sf, self.Settings = fp, sf, ProjectSettings
 
     def home(self, o):
-        q = o
+        """name of the scope that declares `o`: the enclosing module / program, or the enclosing
+        contained procedure that is a scope of the generated project (named n...)"""
+        q = getattr(o, "parent", None)
         while q is not None and not isinstance(q, (self.sf.FortranModule, self.sf.FortranProgram)):
+            if isinstance(q, self.sf.FortranProcedure) and q.name.lower().startswith("n"):
+                break
             q = getattr(q, "parent", None)
         return q.name.lower() if q is not None else "?"
 
@@ -461,7 +531,7 @@ class Impl:
             with common.quiet():
                 settings = self.Settings(src_dir=[d], preprocess=False, dbg=False, warn=False, quiet=True,
                                          graph=False, search=False, incl_src=False,
-                                         display=["public", "protected", "private"])
+                                         display=["public", "protected", "private"], proc_internals=True)
                 project = fp.Project(settings)
                 project.correlate()
         except Exception as e:  # noqa
@@ -470,7 +540,13 @@ class Impl:
             fp.find_all_files = orig_find
             sf.FortranCodeUnit.correlate = orig_corr
         obs = {"order": order, "tables": {}, "refs": {}, "uses": {}}
-        for sc in list(project.modules) + list(project.programs):
+        units = list(project.modules) + list(project.programs)
+        for m in project.modules:  # contained procedures with USE statements (named n<i>a / n<i>b)
+            for r in m.routines:
+                if r.name.lower().startswith("n"):
+                    units.append(r)
+                    units += [q for q in r.routines if q.name.lower().startswith("n")]
+        for sc in units:
             n = sc.name.lower()
             per = {}
             for k, (a, p) in enumerate(KIND_TABLES):
@@ -488,14 +564,27 @@ class Impl:
             if hasattr(sc, "calls"):
                 refs["calls"] = sorted({("?" + c.lower()) if isinstance(c, str) else self.ent(c) for c in sc.calls})
             obs["refs"][n] = refs
-            obs["uses"][n] = sorted(getattr(u, "name", u).lower() if not isinstance(u, str) else u.lower() for u in sc.uses)
         return obs
+
+
+def mask(graph, tables):
+    """FORD shares one dict between a scope and its contained procedures for types, variables and
+    abstract interfaces (C07's sibling/host leak, not this property): where a scope has a contained
+    procedure with USE statements or locals, only its deepest procedure is observed for those kinds."""
+    hosts = {n["host"] for n in graph.get("nested", [])}
+    out = {}
+    for n, per in tables.items():
+        out[n] = {}
+        for k, t in per.items():
+            out[n][k] = {"all": {} if (n in hosts and int(k) != K_PROC) else t["all"], "pub": t["pub"]}
+    return out
 
 
 def expected_refs(graph, tabs):
     """References resolve through the scope's name tables (`tabs`: single-valued)."""
     out = {}
-    for s in graph["scopes"]:
+    hosts = {n["host"] for n in graph.get("nested", [])}
+    for s in graph["scopes"] + graph.get("nested", []):
         refs = {}
         for d in s["decls"]:
             if d["ref"]:
@@ -507,7 +596,19 @@ def expected_refs(graph, tabs):
                 e = tabs[s["name"]][K_PROC]["all"].get(c)
                 calls.add(e if e else "?" + c)
             refs["calls"] = sorted(calls)
+        if s["name"] in hosts:  # type names of a host are looked up in the dict it shares with its procedures
+            refs = {k: v for k, v in refs.items() if k == "calls"}
         out[s["name"]] = refs
+    return out
+
+
+def refs_of(graph, obs_refs):
+    """observed references of the scopes the graph describes (same masking as expected_refs)"""
+    hosts = {n["host"] for n in graph.get("nested", [])}
+    out = {}
+    for s in graph["scopes"] + graph.get("nested", []):
+        r = obs_refs.get(s["name"], {})
+        out[s["name"]] = {k: v for k, v in r.items() if k == "calls"} if s["name"] in hosts else r
     return out
 
 
@@ -555,7 +656,20 @@ def is_topo(graph, order):
 # --------------------------------------------------------------------------
 
 
-def micro_streams(impl, drv, rng, n, rep, hist):
+def detect_variant(impl) -> bool:
+    """True when the working tree honours rename lists of a USE without ONLY
+    (fixes/C06-rename-without-only.diff applied): replay of the finding's witness."""
+    M = impl.sf.FortranModule
+    fake = types.SimpleNamespace(ONLY_RE=M.ONLY_RE, RENAME_RE=M.RENAME_RE,
+                                 pub_procs={}, pub_absints={}, pub_types={}, pub_vars={"v": "V"})
+    try:
+        res = M.get_used_entities(fake, ", w => v")[3]
+    except Exception:  # noqa
+        return False
+    return dict(res) == {"w": "V"}
+
+
+def micro_streams(impl, drv, rng, n, rep, hist, fixed=False):
     sf = impl.sf
     M = sf.FortranModule
     toks = [",", " ", "only", "ONLY", ":", "=>", "a", "b1", "_c", "x", "  ", "=", ">", "Only:", ", only:", "::", "(", "+"]
@@ -582,7 +696,7 @@ def micro_streams(impl, drv, rng, n, rep, hist):
             e = ["ok"] + [f"{loc}={ent[1]}" for loc, ent in res.items()]
         except Exception as ex:  # noqa
             e = ["raised", type(ex).__name__]
-        reqs.append(["c06.used", s, " ".join(names)])
+        reqs.append(["c06.usedfixed" if fixed else "c06.used", s, " ".join(names)])
         exp.append(e)
         line = "".join(rng.choice(utoks) for _ in range(rng.randint(1, 8)))
         if i % 2 == 0:
@@ -594,7 +708,7 @@ def micro_streams(impl, drv, rng, n, rep, hist):
     got = drv.batch(reqs)
     bad = 0
     for r, e, g in zip(reqs, exp, got):
-        if r[0] == "c06.used":
+        if r[0].startswith("c06.used"):
             # dict order is not observable downstream: compare as sorted sets
             e, g = [e[0]] + sorted(e[1:]), [g[0]] + sorted(g[1:])
         if e != g:
@@ -611,13 +725,23 @@ def micro_streams(impl, drv, rng, n, rep, hist):
 
 def prepare(rng, graph):
     """render statements and files; returns {filename: text}, list of scopes per file"""
-    for s in graph["scopes"]:
+    # module names are permuted so that alphabetical order (toposort's tie-break) is unrelated
+    # to the dependency order
+    mods = [s["name"] for s in graph["scopes"] if s["is_mod"]]
+    shuffled = list(mods)
+    rng.shuffle(shuffled)
+    ren = dict(zip(mods, shuffled))
+    for s in graph["scopes"] + graph.get("nested", []):
+        s["name"] = ren.get(s["name"], s["name"])
+        if s.get("host"):
+            s["host"] = ren.get(s["host"], s["host"])
         for u in s["uses"]:
+            u["mod"] = ren.get(u["mod"], u["mod"])
             render_use(rng, u)
     files = {}
     cur, k = [], 0
     for s in graph["scopes"]:
-        cur.append(render_scope(rng, s))
+        cur.append(render_scope(rng, s, graph.get("nested", [])))
         if rng.random() < 0.8:
             files[f"f{k}.f90"] = "\n".join(cur)
             cur, k = [], k + 1
@@ -634,29 +758,34 @@ def oracle_case(graph, obs):
     if has_clash(strict, graph):
         return "clash", None, []
     exp = single(strict)
-    why = diff_tables(exp, obs["tables"])
+    got = mask(graph, obs["tables"])
+    got_refs = refs_of(graph, obs["refs"])
+    why = diff_tables(mask(graph, exp), got)
     if why is None:
         er = expected_refs(graph, exp)
-        if er != obs["refs"]:
+        if er != got_refs:
             for n in er:
                 for key in er[n]:
-                    if er[n][key] != obs["refs"].get(n, {}).get(key):
-                        why = f"reference {n}/{key}: expected {er[n][key]} observed {obs['refs'].get(n, {}).get(key)}"
+                    if er[n][key] != got_refs.get(n, {}).get(key):
+                        why = f"reference {n}/{key}: expected {er[n][key]} observed {got_refs.get(n, {}).get(key)}"
                         break
+            why = why or "resolved references differ"
     if why is None:
         return "ok", None, []
     # classification: is the deviation explained by the known defect classes present in the input?
-    feats = features(graph)
-    if feats:
-        asis = spec_tables(graph, frozenset(feats))
-        e2 = single(asis)
-        if diff_tables(e2, obs["tables"]) is None and expected_refs(graph, e2) == obs["refs"]:
-            blamed = []
-            for f in sorted(feats):
-                less = single(spec_tables(graph, frozenset(feats - {f})))
-                if diff_tables(less, e2) is not None or expected_refs(graph, less) != expected_refs(graph, e2):
-                    blamed.append(f)
-            return "fail", why, blamed or sorted(feats)
+    feats = sorted(features(graph))
+    # the working tree may have repaired some of the classes: look for the set of present defect
+    # classes that explains the observation completely (largest first)
+    for size in range(len(feats), 0, -1):
+        for sub in itertools.combinations(feats, size):
+            e2 = single(spec_tables(graph, frozenset(sub)))
+            if diff_tables(mask(graph, e2), got) is None and expected_refs(graph, e2) == got_refs:
+                blamed = []
+                for f in sub:
+                    less = single(spec_tables(graph, frozenset(set(sub) - {f})))
+                    if diff_tables(less, e2) is not None or expected_refs(graph, less) != expected_refs(graph, e2):
+                        blamed.append(f)
+                return "fail", why, blamed or list(sub)
     return "fail", why, [None]
 
 
@@ -670,10 +799,12 @@ def run(tier: str, seed: int, replay: str | None = None) -> int:
     rng = random.Random(seed * 104729 + 6)
     drv = Driver()
     hist: dict[str, int] = {}
-    n_micro = 1500 if tier == "quick" else 20000
-    n_graph = 320 if tier == "quick" else 6000
-    n_allperm = 14 if tier == "quick" else 300
-    ev_micro, bad_micro = micro_streams(impl, drv, rng, n_micro, rep, hist)
+    n_micro = 3000 if tier == "quick" else 20000
+    n_graph = 800 if tier == "quick" else 6000
+    n_allperm = 30 if tier == "quick" else 300
+    fixed = detect_variant(impl)
+    hist["variant:" + ("repaired-rename" if fixed else "as-is")] = 1
+    ev_micro, bad_micro = micro_streams(impl, drv, rng, n_micro, rep, hist, fixed)
 
     graphs = []
     if replay:
@@ -742,7 +873,7 @@ def run(tier: str, seed: int, replay: str | None = None) -> int:
             fields = []
             for s in g["scopes"]:
                 fields += model_fields(s)
-            reqs.append(["c06.run", " ".join(order)] + fields)
+            reqs.append(["c06.runfixed" if fixed else "c06.run", " ".join(order)] + fields)
         model = drv.batch(reqs)
         for g, obs, mo in zip(graphs, impl_obs, model):
             if obs is None or "error" in obs:
@@ -759,7 +890,9 @@ def run(tier: str, seed: int, replay: str | None = None) -> int:
                     hist["default:" + ("public" if s["def_pub"] else "private")] = hist.get("default:" + ("public" if s["def_pub"] else "private"), 0) + 1
             mt = parse_model(mo)
             # FORD adds the specific of a generic interface only when `generic`; drop model-only helper decls
-            w = None if "error" in mt else diff_tables(strip_impl(mt), strip_impl(obs["tables"]))
+            flat = {sc["name"] for sc in g["scopes"]}
+            w = None if "error" in mt else diff_tables(
+                mask(g, strip_impl(mt)), mask(g, strip_impl({n: t for n, t in obs["tables"].items() if n in flat})))
             if "error" in mt or w:
                 n_corr_bad += 1
                 rep.tie_broken(f"correspondence graph: model and implementation differ on graph {g['id']}: {w}",
